@@ -314,7 +314,7 @@ Lemma format_entries_ok cf tbl tp db es out :
     format_labels (cf_label cf) (sort_entries (cf_sort cf) es) = Ok labels /\
     map fe_key out = map e_key (sort_entries (cf_sort cf) es) /\
     map fe_label out = labels /\
-    Forall2 (fun e x => exists t, template_of tp e = Some t /\
+    Forall2 (fun e x => fe_key x = e_key e /\ exists t, template_of tp e = Some t /\
                                   eval_top (mkC e db tbl (cf_names cf) (cf_abbr cf)) t = TOk (fe_text x))
             (sort_entries (cf_sort cf) es) out.
 Proof.
@@ -331,7 +331,7 @@ Proof.
   - rewrite Lb. now apply combine_fst.
   - rewrite <- (combine_snd labels sorted Hlen). clear K Lb.
     induction H as [|a b l l' Hab HF IH]; cbn; constructor; auto.
-    apply format_entry_ok in Hab as (_ & _ & t & Ht & He). eauto.
+    apply format_entry_ok in Hab as (Hk & _ & t & Ht & He). eauto.
 Qed.
 
 Lemma format_bibliography_ok cf tbl tp db cites out :
@@ -344,7 +344,7 @@ Lemma format_bibliography_ok cf tbl tp db cites out :
     format_labels (cf_label cf) (sort_entries (cf_sort cf) es) = Ok labels /\
     map fe_key out = map e_key (sort_entries (cf_sort cf) es) /\
     map fe_label out = labels /\
-    Forall2 (fun e x => exists t, template_of tp e = Some t /\
+    Forall2 (fun e x => fe_key x = e_key e /\ exists t, template_of tp e = Some t /\
                                   eval_top (mkC e (Some db) tbl (cf_names cf) (cf_abbr cf)) t = TOk (fe_text x))
             (sort_entries (cf_sort cf) es) out.
 Proof.
@@ -416,7 +416,7 @@ Proof.
   { eapply Permutation_in; [apply sort_entries_perm|exact Hin]. }
   clear Hin. induction HF as [|a x l l' Hax HF IH]; [contradiction|].
   destruct Hin' as [->|Hin']; [|auto].
-  destruct Hax as (t' & Ht' & He). rewrite Ht in Ht'. inversion Ht'; subst t'.
+  destruct Hax as (_ & t' & Ht' & He). rewrite Ht in Ht'. inversion Ht'; subst t'.
   unfold eval_top in He. apply tbind_ok in He as (v & Hv & _).
   eapply required_missing_lemma; eauto.
 Qed.
